@@ -618,7 +618,7 @@ impl From<f64> for Float {
     }
 }
 
-#[derive(Debug, PartialEq, Hash, Clone)]
+#[derive(Debug, Clone)]
 pub enum ExpressionTree {
     Value(Value),
     ColumnAccess(String),
@@ -635,6 +635,143 @@ pub enum ExpressionTree {
     TypeConversion { operand: Box<ExpressionTree>, convert_to_type: ValueType },
     Case { clauses: Vec<(ExpressionTree, ExpressionTree)>, else_clause: Box<ExpressionTree> },
     Aggregate(usize, Box<Aggregate>)
+}
+
+// Two expressions are the same expression only if their literals are written alike: values compare by numeric value
+// (2 equals 2.0), but x / 2 and x / 2.0 are different expressions (e.g. when a select item is matched with a GROUP BY part)
+impl Value {
+    fn same_literal(&self, other: &Value) -> bool {
+        match (self, other) {
+            (Value::Array(self_type, self_values), Value::Array(other_type, other_values)) => {
+                self_type == other_type
+                && self_values.len() == other_values.len()
+                && self_values.iter().zip(other_values.iter()).all(|(x, y)| x.same_literal(y))
+            }
+            _ => std::mem::discriminant(self) == std::mem::discriminant(other) && self == other
+        }
+    }
+
+    fn hash_literal<H: Hasher>(&self, state: &mut H) {
+        std::mem::discriminant(self).hash(state);
+        match self {
+            Value::Array(element_type, values) => {
+                element_type.hash(state);
+                for value in values {
+                    value.hash_literal(state);
+                }
+            }
+            _ => self.hash(state)
+        }
+    }
+}
+
+impl PartialEq for ExpressionTree {
+    fn eq(&self, other: &Self) -> bool {
+        use ExpressionTree::*;
+        match (self, other) {
+            (Value(x), Value(y)) => x.same_literal(y),
+            (ColumnAccess(x), ColumnAccess(y)) => x == y,
+            (ScopedColumnAccess(x_scope, x), ScopedColumnAccess(y_scope, y)) => x_scope == y_scope && x == y,
+            (Wildcard, Wildcard) => true,
+            (Compare { operator: x_operator, left: x_left, right: x_right }, Compare { operator: y_operator, left: y_left, right: y_right }) => {
+                x_operator == y_operator && x_left == y_left && x_right == y_right
+            }
+            (NullableCompare { operator: x_operator, left: x_left, right: x_right }, NullableCompare { operator: y_operator, left: y_left, right: y_right }) => {
+                x_operator == y_operator && x_left == y_left && x_right == y_right
+            }
+            (Arithmetic { operator: x_operator, left: x_left, right: x_right }, Arithmetic { operator: y_operator, left: y_left, right: y_right }) => {
+                x_operator == y_operator && x_left == y_left && x_right == y_right
+            }
+            (BooleanOperation { operator: x_operator, left: x_left, right: x_right }, BooleanOperation { operator: y_operator, left: y_left, right: y_right }) => {
+                x_operator == y_operator && x_left == y_left && x_right == y_right
+            }
+            (UnaryArithmetic { operator: x_operator, operand: x_operand }, UnaryArithmetic { operator: y_operator, operand: y_operand }) => {
+                x_operator == y_operator && x_operand == y_operand
+            }
+            (In { is_not: x_is_not, operand: x_operand, values: x_values }, In { is_not: y_is_not, operand: y_operand, values: y_values }) => {
+                x_is_not == y_is_not && x_operand == y_operand && x_values == y_values
+            }
+            (FunctionCall { function: x_function, arguments: x_arguments }, FunctionCall { function: y_function, arguments: y_arguments }) => {
+                x_function == y_function && x_arguments == y_arguments
+            }
+            (ArrayElementAccess { array: x_array, index: x_index }, ArrayElementAccess { array: y_array, index: y_index }) => {
+                x_array == y_array && x_index == y_index
+            }
+            (TypeConversion { operand: x_operand, convert_to_type: x_type }, TypeConversion { operand: y_operand, convert_to_type: y_type }) => {
+                x_operand == y_operand && x_type == y_type
+            }
+            (Case { clauses: x_clauses, else_clause: x_else }, Case { clauses: y_clauses, else_clause: y_else }) => {
+                x_clauses == y_clauses && x_else == y_else
+            }
+            (Aggregate(x_index, x), Aggregate(y_index, y)) => x_index == y_index && x == y,
+            _ => false
+        }
+    }
+}
+
+impl Hash for ExpressionTree {
+    fn hash<H: Hasher>(&self, state: &mut H) {
+        use ExpressionTree::*;
+        std::mem::discriminant(self).hash(state);
+        match self {
+            Value(value) => value.hash_literal(state),
+            ColumnAccess(name) => name.hash(state),
+            ScopedColumnAccess(scope, name) => {
+                scope.hash(state);
+                name.hash(state);
+            }
+            Wildcard => {}
+            Compare { operator, left, right } => {
+                operator.hash(state);
+                left.hash(state);
+                right.hash(state);
+            }
+            NullableCompare { operator, left, right } => {
+                operator.hash(state);
+                left.hash(state);
+                right.hash(state);
+            }
+            Arithmetic { operator, left, right } => {
+                operator.hash(state);
+                left.hash(state);
+                right.hash(state);
+            }
+            BooleanOperation { operator, left, right } => {
+                operator.hash(state);
+                left.hash(state);
+                right.hash(state);
+            }
+            UnaryArithmetic { operator, operand } => {
+                operator.hash(state);
+                operand.hash(state);
+            }
+            In { is_not, operand, values } => {
+                is_not.hash(state);
+                operand.hash(state);
+                values.hash(state);
+            }
+            FunctionCall { function, arguments } => {
+                function.hash(state);
+                arguments.hash(state);
+            }
+            ArrayElementAccess { array, index } => {
+                array.hash(state);
+                index.hash(state);
+            }
+            TypeConversion { operand, convert_to_type } => {
+                operand.hash(state);
+                convert_to_type.hash(state);
+            }
+            Case { clauses, else_clause } => {
+                clauses.hash(state);
+                else_clause.hash(state);
+            }
+            Aggregate(index, aggregate) => {
+                index.hash(state);
+                aggregate.hash(state);
+            }
+        }
+    }
 }
 
 impl ExpressionTree {
